@@ -445,6 +445,9 @@ func equivTerms(a, b *Term, maxAtoms int) (bool, *mismatch, int) {
 		}
 		for _, v := range []bool{true, false} {
 			asg[need] = v
+			if !consistentAtoms(asg, need) {
+				continue // arithmetically impossible combination of comparisons of one polynomial
+			}
 			if m := rec(asg); m != nil {
 				return m
 			}
@@ -474,4 +477,38 @@ func trunc(s string, n int) string {
 		return s[:n] + "…"
 	}
 	return s
+}
+
+// consistentAtoms: the comparison atoms "<poly><0", "<poly><=0", "<poly>==0" of one polynomial must be
+// satisfiable by some sign of the polynomial.
+func consistentAtoms(asg map[string]bool, changed string) bool {
+	var poly string
+	for _, suf := range []string{"<=0", "==0", "<0"} {
+		if strings.HasSuffix(changed, suf) && strings.HasPrefix(changed, "(") {
+			poly = strings.TrimSuffix(changed, suf)
+			break
+		}
+	}
+	if poly == "" {
+		return true
+	}
+	lt, hasLt := asg[poly+"<0"]
+	le, hasLe := asg[poly+"<=0"]
+	eq, hasEq := asg[poly+"==0"]
+	for _, sign := range []int{-1, 0, 1} {
+		ok := true
+		if hasLt && lt != (sign < 0) {
+			ok = false
+		}
+		if hasLe && le != (sign <= 0) {
+			ok = false
+		}
+		if hasEq && eq != (sign == 0) {
+			ok = false
+		}
+		if ok {
+			return true
+		}
+	}
+	return false
 }
